@@ -416,6 +416,26 @@ def sc_connection_wait_on_sentinels(env):
     return {"first_is_reader": first == [q._reader], "got": got, "idle": len(idle), "dead_is_sentinel": dead == [p2.sentinel], "code": p2.exitcode}
 
 
+def sc_fork_snapshot_of_closure(env):
+    """the child sees the parent's data as it was at start(), also through a closure"""
+    q = env.mp.Queue()
+    ev = env.mp.Event()
+    data = [1]
+
+    def child():
+        ev.wait()
+        q.put(list(data))
+
+    p = env.mp.Process(target=child)
+    data.append("before-start")
+    p.start()
+    data.append("after-start")
+    ev.set()
+    got = q.get(timeout=5.0)
+    p.join()
+    return {"child_saw": got, "parent_has": data}
+
+
 def w_sq_child(q, n):
     for i in range(n):
         q.put(i)
@@ -511,7 +531,7 @@ SCENARIOS = [
     sc_normal_exit, sc_exception_flushes, sc_sys_exit_3, sc_sigkill_prefix, sc_get_timeout_empty, sc_per_worker_fifo,
     sc_dead_means_flushed, sc_exitcode_while_alive, sc_terminate, sc_join_before_drain_big, sc_killed_holding_lock,
     sc_torn_frame_blocks_get, sc_pool_map, sc_pool_exception, sc_pool_worker_killed, sc_pool_sys_exit_in_task, sc_pool_close_join,
-    sc_pipe_eof, sc_simplequeue, sc_condition_turns, sc_joinable_queue, sc_reader_lock_leak, sc_pipe_eof_inside_message, sc_sigchld_handler_reaps_child, sc_connection_wait_on_sentinels,
+    sc_pipe_eof, sc_simplequeue, sc_condition_turns, sc_joinable_queue, sc_reader_lock_leak, sc_pipe_eof_inside_message, sc_sigchld_handler_reaps_child, sc_connection_wait_on_sentinels, sc_fork_snapshot_of_closure,
 ]
 
 
